@@ -42,6 +42,10 @@ pub struct Cfg {
     /// every third contract of the setup is its OWN admin, and a program running at such a contract often returns
     /// a Migrate of itself as a sub-message (the dispatcher's code changes while its own sub-messages are processed)
     pub self_admin: bool,
+    /// some sub-messages are statically doomed (instantiate with an empty label or an unknown code id, migrate to an
+    /// unknown code id) and dispatched with ReplyOn::Error / Always and a reply handler that succeeds: the failure
+    /// belongs to the SUB-message (caught), not to the contract that returned it
+    pub doomed_subs: bool,
 }
 impl Default for Cfg {
     fn default() -> Self {
@@ -64,6 +68,7 @@ impl Default for Cfg {
             huge_blocks: false,
             big_data: false,
             self_admin: false,
+            doomed_subs: false,
             wrapped_codes: false,
         }
     }
@@ -312,6 +317,24 @@ impl<'a> G<'a> {
             1 => vec![1],
             _ => vec![self.rng.below(256) as u8, 2],
         };
+        if self.cfg.doomed_subs && self.rng.chance(1, 10) {
+            let code_id = self.rng.pick(&self.codes).id;
+            let m = match self.rng.below(3) {
+                0 => Msg::Inst { code_id, p: self.prog(depth + 1, false), funds: vec![], label: "".into(), admin: None, salt: None },
+                1 => Msg::Inst { code_id: 0, p: self.prog(depth + 1, false), funds: vec![], label: "L".into(), admin: None, salt: None },
+                _ => {
+                    let c = self.some_contract();
+                    Msg::Migrate { c, new_code: 0, p: self.prog(depth + 1, false) }
+                }
+            };
+            let ro = *self.rng.pick(&[ReplyOnS::Error, ReplyOnS::Always, ReplyOnS::Error, ReplyOnS::Never]);
+            let on_ok = self.prog(depth + 1, false);
+            let mut on_err = self.prog(depth + 1, false);
+            if let Output::Fail = on_err.out {
+                on_err.out = Output::Resp { attrs: vec![], events: vec![], data: None, subs: vec![] };
+            }
+            return Sub { id, payload, ro, m: Box::new(m), on_ok, on_err };
+        }
         let ro = *self.rng.pick(&[ReplyOnS::Success, ReplyOnS::Error, ReplyOnS::Always, ReplyOnS::Never]);
         let m = self.msg(depth + 1);
         let deep = self.rng.chance(1, 4);
